@@ -164,6 +164,18 @@ func runC10(r *mc.Run) {
 		c10Call(r, id, "verify.TdxQuote", nil, func() error { return verify.TdxQuote(any1, w.Options(world.L0)) })
 		if single {
 			c10Call(r, id, "verify.TdxQuote/L2", nil, func() error { return verify.TdxQuote(any1, w.Options(world.L2)) })
+			// the second exported entry point that judges a message against collateral: it runs on options through which
+			// a (genuine) quote was verified before, without the message checks TdxQuote starts with
+			primed := w.Options(world.L1)
+			world.SafeVerifyRaw(bases[0].raw, primed)
+			c10Call(r, id, "verify.SupportedTcbLevelsFromCollateral/primed-options", nil, func() error {
+				_, _, e := verify.SupportedTcbLevelsFromCollateral(any1, primed)
+				return e
+			})
+			c10Call(r, id, "verify.SupportedTcbLevelsFromCollateral/fresh-options", nil, func() error {
+				_, _, e := verify.SupportedTcbLevelsFromCollateral(any1, w.Options(world.L1))
+				return e
+			})
 		}
 		c10Call(r, id, "verify.ExtractChainFromQuote", nil, func() error { _, e := verify.ExtractChainFromQuote(any1); return e })
 		c10Call(r, id, "validate.TdxQuote", nil, func() error { return validate.TdxQuote(any1, vopts) })
